@@ -86,9 +86,45 @@ def gen_create_script(rng):
     return '\n'.join(L) + '\n'
 
 
+def gen_delete_script(rng):
+    """The fault hits the append of the deletion marker to the ACTIVE blob while the key also lives in closed blobs
+    (a delete goes to the active blob first, then to every closed blob): the delete returns an error and must not be
+    served anywhere -- not from the closed blobs either."""
+    g = Gen(rng, queries=(), maint=0.3, restart=rng.choice([0.0, 0.15]), deletes=0.1, bg=0.0, nops=rng.randrange(4, 11), dup=1, metas=False)
+    L = g.build().strip().split('\n')
+    qs = ['R %s' % k for k in g.keys]
+    seed = 3000
+    k = rng.choice(g.keys)
+    seed += 1
+    L.append('W %s %d - 5 %d' % (k, rng.choice([5, 7, 9]), seed))       # the key is certainly somewhere
+    L.append('close_active')
+    L.append(rng.choice(['create_active', 'W %s 9 - 5 %d' % (rng.choice(g.keys), seed + 1)]))
+    seed += 1
+    L += qs
+    L.append('fail append .blob 0 %s' % rng.choice(['ENOSPC', 'EIO', 'short:0', 'short:%d' % rng.randrange(1, 60)]))
+    L.append('D %s %d - %d' % (k, rng.choice([12, 13]), rng.choice([0, 0, 1])))
+    L += qs
+    L.append('clearfail')
+    L.append('quiesce')
+    L += qs
+    L.append('counts')
+    for _ in range(2):
+        seed += 1
+        L.append('W %s %d - 5 %d' % (rng.choice(g.keys), rng.choice([5, 7, 9]), seed))
+    L.append('force_update always')
+    L += qs
+    L.append('counts')
+    L.append('close')
+    L.append('open')
+    L += qs
+    L.append('counts')
+    return '\n'.join(L) + '\n'
+
+
 def gen(tier, rng):
     n = 260 if tier == 'quick' else 6000
-    return [('fault%05d' % i, gen_script(rng)) for i in range(n)] + [('create%05d' % i, gen_create_script(rng)) for i in range(n // 3)]
+    return [('fault%05d' % i, gen_script(rng)) for i in range(n)] + [('create%05d' % i, gen_create_script(rng)) for i in range(n // 3)] + \
+           [('delete%05d' % i, gen_delete_script(rng)) for i in range(n // 5)]
 
 
 def spec_for_acknowledged(lines, io, drop=()):
@@ -131,30 +167,15 @@ def oracle(lines, io, spec=None):
     hit = any(' Err ' in o for o in io[fi:ci])
     bg_fault = not hit
     def tag_for(i):
-        # known classes, recognised from what failed
-        kind, pat = fault.split()[1], fault.split()[2]
-        if any(o.endswith('Err Index') for o in io):
-            return '[F2] '
-        if any(io[j] == 'quiesce dead' for j in range(min(len(io), len(lines))) if lines[j] == 'quiesce'):
-            return '[F1] '
-        if kind == 'append' and pat == '.blob' and any(l in ('close', 'drop') for l in lines[:fi]) and \
-                any(lines[j].split()[0] in ('W', 'D') and ' Err Io' in io[j] for j in range(fi, min(ci, len(io)))):
-            return '[F20] '
-        if (pat == '.index' or kind == 'writeat') and i < open_i:
-            # in-session only: at the next start an index file without its written flag is recomputed from the blob
-            return '[F9] '
-        if kind == 'sync' and any(lines[j] == 'close_active' and ' Err ' in io[j] for j in range(fi, min(i + 1, len(io)))):
-            return '[F15] '
-        if kind in ('create', 'append', 'sync') and pat == '.blob' and any(lines[j].startswith('force_update') for j in range(fi, ci)) and \
-                any(io[j] == 'quiesce dead' for j in range(len(io)) if lines[j] == 'quiesce'):
-            return '[F1] '
+        # the classes that used to be recognised here (F1, F2, F9, F15, F20) are all repaired in the code: nothing is tagged
         return ''
     # a delete whose fault hit one of the closed blobs is logged and counted as 0 there (the call still returns Ok):
     # which blobs got their marker is then not determined by the acknowledgement; such keys are left out
     uncertain = set()
     partial = set()
     for i in range(fi, min(ci, len(io), len(amodel))):
-        if lines[i].startswith('D ') and io[i] != amodel[i]:
+        # (only a delete that RETURNED OK with another count: a delete that returned an error must not be served at all)
+        if lines[i].startswith('D ') and io[i] != amodel[i] and io[i].split()[1:2] != ['Err'] and not io[i].endswith('Timeout') and 'Panic' not in io[i]:
             uncertain.add(lines[i].split()[1]); partial.add(i)
     # theorem C11_failed_delete_markers / cancelled_delete_read: the read of such a key is the read WITHOUT the delete
     # or the read WITH the completed delete -- nothing else
